@@ -166,6 +166,7 @@ func vs_pos(n int) int { panic("vs_oracle: iterator positions are not available 
 func vs_called(callee string) bool { panic("vs_oracle: call history is not available at run time") }
 func vs_callResult[T any](callee string, i int) T { panic("vs_oracle: call history is not available at run time") }
 func vs_callArg[T any](callee string, i int) T { panic("vs_oracle: call history is not available at run time") }
+func vs_callOrder(callee string) int { panic("vs_oracle: call history is not available at run time") }
 func vs_eq[T any](a, b T) bool { return reflect.DeepEqual(a, b) }
 func vs_same[T any](a, b []T) bool { return len(a) == len(b) && (len(a) == 0 || &a[0] == &b[0]) }
 func vs_has[K comparable, V any](m map[K]V, k K) bool { _, ok := m[k]; return ok }
